@@ -25,7 +25,7 @@ PROFILES = {
     "C04": [("shape", 0.5), ("mixed", 0.3), ("offgrid", 0.2)],
     "C05": [("agree", 0.8), ("mixed", 0.2)],
     "C06": [("fork", 0.7), ("mixed", 0.3)],
-    "C07": [("mixed", 0.5), ("alias", 0.25), ("fork", 0.25)],
+    "C07": [("mixed", 0.4), ("alias", 0.2), ("fork", 0.5)],
     "C08": [("catchup", 0.8), ("mixed", 0.2)],
     "C10": [("income", 0.6), ("alias", 0.2), ("mixed", 0.2)],
     "C11": [("pool", 0.5), ("agree", 0.5), ("mixed", 0.2)],
